@@ -71,6 +71,19 @@ def jobs_for(tier, rng):
             e2 = (e + 1) % ne
             fk[s][a][e2] = rng.choice([0, 1, 2])
         jobs.append({"mdp": m, "tol": tol, "fk": fk, "tf": rng.choice([0, 0, 1, 2, 3]), "K": 41})
+    # thousands of events (more than 4096, not a multiple of it), rows summing to one exactly
+    for k in range(1 if tier == "quick" else 3):
+        ne = [5000, 4097, 9000][k]
+        PD = 8192 if ne <= 8192 else 16384
+        m = T.random_mdp(rng, ns=2, na=2, ne=ne, PD=2, rmax=2, sparse=False, plain_render=True)
+        twos = PD - ne
+        for s_ in range(2):
+            for a in range(2):
+                row = [2] * twos + [1] * (ne - twos)
+                rng.shuffle(row)
+                m["pk"][s_][a] = row
+        m["PD"] = PD
+        jobs.append({"mdp": m, "tol": [0, 1]})
     # a shipped problem through the same builder: Forest with a dyadic fire probability (tables = documented dynamics)
     for S, pk_, r1, r2 in ([(3, 1, 4.0, 2.0), (7, 2, 2.5, 8.0)] if tier == "quick" else
                           [(S, k, r1, r2) for S in (1, 2, 3, 5, 9, 16) for k in (0, 1, 3, 4) for r1, r2 in ((4.0, 2.0), (0.5, 16.0))]):
